@@ -708,13 +708,24 @@ theorem shallow_freeze_not_captured :
     the source and as observed on the real objects. -/
 theorem generated_capture_ok : ∀ e ∈ Generated.CaptureTable.table, e.ok = true := by decide
 
-/-- The table has a row for every place of the statement. -/
+/-- The table has a row for every place of the statement, **and for every place the AST scan of the
+    code finds on this run**: every subclass of `Attr`, every `__init__` / `__post_init__` of the core
+    modules that stores a container-typed (or untyped) parameter or field, every public function with an
+    array parameter is mapped to a row that exists (or is on the short list of internal constructors no
+    caller-owned object reaches); and in the operator modules every array / iterable constructor
+    parameter flows only into `Attr*`, `Inputs` or `np.array`. A new attribute class or a new storing
+    constructor without a row makes this fail to check. -/
 theorem generated_capture_complete :
     ["AttrTensor", "AttrTensors", "AttrFloat32s", "AttrInt64s", "AttrStrings", "BaseVars.variadic",
      "initializer", "arguments(default)", "constant(value)", "constant(value_ints)", "const(ndarray)",
      "const(nested list)", "_future.initializer(ndarray)", "_future.initializer(nested list)",
      "_AttrIterable.maybe"].all
-      (fun s => Generated.CaptureTable.table.any (·.site == s)) = true := by decide
+      (fun s => Generated.CaptureTable.table.any (·.site == s)) = true ∧
+    Generated.CaptureTable.uncoveredSites = [] ∧
+    Generated.CaptureTable.opsetDirectUses = [] ∧
+    Generated.CaptureTable.discovered.all
+      (fun p => p.2 == "internal" || Generated.CaptureTable.table.any (·.site == p.2)) = true ∧
+    Generated.CaptureTable.discovered.length ≥ 20 := by decide
 
 /-- **Captured at the call.** For every constructor of the generated table, every heap, every
     argument of the row's kind and every sequence of caller-side mutations after the call, what spox
